@@ -19,6 +19,46 @@ def search_stat(case, obs):
     return ks
 
 
+def _segments(go_obs, model_full):
+    gs = go_obs.split(" ;; ")
+    ms = model_full.split(" ;; ")
+    if len(gs) != len(ms):
+        return []
+    out = []
+    for g, m in zip(gs, ms):
+        if " ## legal=" not in m or not g.startswith("best="):
+            continue
+        best = g.split()[0][5:]
+        spec = m.split(" ## ", 1)[1]
+        legal = spec.split("legal=", 1)[1].split(" mates=")[0]
+        mates = spec.split(" mates=", 1)[1] if " mates=" in spec else ""
+        out.append((best, [x for x in legal.split(",") if x], [x for x in mates.split(",") if x]))
+    return out
+
+
+def judge_legal(case, go_obs, model_full):
+    """C04 judged by the independent FIDE specification (not by the engine's own generator): the answer is one of the
+    specification's legal moves of the root, the null move exactly when there is none."""
+    for k, (best, legal, _) in enumerate(_segments(go_obs, model_full)):
+        if not legal and best != "0000":
+            return "[C04] search %d: the FIDE specification has no legal move at the root but the answer is %s" % (k, best)
+        if legal and best == "0000":
+            return "[C04] search %d: the FIDE specification has legal moves at the root but the answer is the null move" % k
+        if legal and best not in legal:
+            return "[C04] search %d: the answer %s is not a legal move of the root under the FIDE specification" % (k, best)
+    return None
+
+
+def judge_mate(case, go_obs, model_full):
+    """C13 judged by the FIDE specification: when it has a mating move at the root of the last search, the answer is one."""
+    segs = _segments(go_obs, model_full)
+    if segs:
+        best, legal, mates = segs[-1]
+        if mates and best not in mates:
+            return "[C13] the FIDE specification has the mating moves %s at the root but the answer is %s" % (mates, best)
+    return None
+
+
 def search_nontrivial(case, obs):
     # at least one search produced an info line with a PV
     return " I " in obs.replace("ev: I", " I ")
@@ -28,7 +68,7 @@ SPEC = {
     "ties": [{
         "name": "searches", "group": "hsearch", "key": "SEARCH", "tags": ["C04"],
         "n_quick": 224, "n_thorough": 20000, "min_per_shard": 14, "timeout": 6000,
-        "nontrivial": search_nontrivial, "stat": search_stat,
+        "nontrivial": search_nontrivial, "stat": search_stat, "judge": judge_legal,
     }, session_tie(["C04"]), {
         # oracle only (no model side): deeper searches than the extracted model can follow
         "name": "deep-searches-oracle-only", "group": "hsearch", "key": "SEARCHDEEP", "model": False, "tags": ["C04"],
